@@ -357,6 +357,8 @@ prop(
              label="readmon/dev/random (debug assertions on)"),
         dict(engine="readmon", profile="dev", args=["--mode", "boundary", "--cases", "300"], group="boundary",
              label="readmon/dev/boundary (debug assertions on)"),
+        dict(engine="readmon", profile="release", args=["--mode", "interleaved-readers"], group="interleaved",
+             label="readmon/release/interleaved-readers (2-3 readers alive at once, items interleaved)"),
     ],
     floor=dict(quick=300_000, thorough=5_000_000),
     counter_floors=dict(quick=dict(deliveries=10_000_000, deliveries_with_interrupts=5_000_000, crlf_splits=100_000,
@@ -476,6 +478,10 @@ prop(
     runs=[
         dict(engine="writemon", profile="release", args=[], group="all"),
         dict(engine="writemon", profile="dev", args=[], group="all", label="writemon/dev (flush-per-write path)"),
+        dict(engine="readmon", profile="release", args=["--mode", "interleaved-writers"], group="interleaved",
+             label="readmon(interleaved-writers)/release: 2-3 writers alive at once, writes interleaved, partial + interrupted sink"),
+        dict(engine="readmon", profile="dev", args=["--mode", "interleaved-writers", "--cases", "8000"], group="interleaved",
+             label="readmon(interleaved-writers)/dev"),
     ],
     floor=dict(quick=14_000, thorough=300_000),
     counter_floors=dict(quick=dict(writes=1_400_000, partial_accepts=50_000_000, interrupted_calls=1_000_000, roundtrip_values=2_000_000,
